@@ -160,6 +160,7 @@ type Engine struct {
 	timeNow      *Term
 	workLimit    int64 // vWorkBegin: step count at which the section has used more work than allowed
 	workMsg      string
+	sectionStart int64   // step count at the last vMustNotBlock
 	goQueue      []FuncV // goroutines queued by vQueueGo: run when the harness goroutine blocks
 	inGoroutine  int
 	guards       map[*Cell]guardInfo // lockset discipline declared by vGuardedBy
